@@ -55,7 +55,13 @@ class Oracle:
         self.depth = params.get('depth', 3)
         self.stats = {'bfs_states': 0, 'bfs_transitions': 0, 'foreign_exceptions': 0,
                       'programs': 0, 'max_bfs_states_per_exec': 0, 'reference_translations': 0,
-                      'pickle_only_diffs': 0}
+                      'pickle_only_diffs': 0, 'canary_translations': 0}
+        # canary: a small program with the texts a fresh translator printed for it before anything else was
+        # translated in the checking process; a fresh translator must print it identically after every
+        # execution (state shared between translator OBJECTS -- class attributes, module globals -- is invisible
+        # to the per-object BFS below)
+        c = params.get('canary')
+        self.canaries = [(c['pickle'], dict(c['texts']))] if c else []
 
     # -- helpers ---------------------------------------------------------------------------
     def _translate(self, tr, P):
@@ -176,6 +182,16 @@ class Oracle:
             if frontier:
                 self.stats['bfs_open_frontier'] = self.stats.get('bfs_open_frontier', 0) + 1
             nstates_total += nstates
+        for cb, texts in self.canaries:
+            for L in LANGS:
+                got = self._translate(pipeline.new_translator(L, 'src.a'), pickle.loads(cb))
+                self.stats['canary_translations'] += 1
+                if got != texts[L]:
+                    vs.append({'rule': 'fresh-translator-depends-on-earlier-translations',
+                               'site': 'src/translators/%s.py' % L,
+                               'shape': 'a fresh translator prints an earlier program differently after the translations '
+                                        'of this execution', 'history': ['<translations of this execution>'], 'foreign': L != lang})
+                    texts[L] = got
         self.stats['bfs_states'] += nstates_total
         self.stats['max_bfs_states_per_exec'] = max(self.stats['max_bfs_states_per_exec'], nstates_total)
         # dedupe identical (rule, site) within one execution, keep the shortest history
@@ -190,6 +206,15 @@ class Oracle:
         return res
 
 
+def make_canary():
+    """to be called before anything else is translated in this process"""
+    pipeline.setup_env()
+    x = pipeline.run_execution(Config('kotlin', (0, 0, 0, 0), 'XS'), ('prng', 1), {}, stages=('gen',))
+    o = Oracle({})
+    texts = {L: o._translate(pipeline.new_translator(L, 'src.a'), pickle.loads(x.P0_pickle)) for L in LANGS}
+    return {'pickle': x.P0_pickle, 'texts': texts}
+
+
 def plan(tier):
     langs = LANGS
     z = (0, 0, 0, 0)
@@ -197,6 +222,8 @@ def plan(tier):
         return [
             ([Config(l, z, 'S') for l in langs], [('prng', 1), ('prng', 2)], 1, 8),
             ([Config(l, z, 'D') for l in langs], [('prng', 1), ('prng', 2), 'first', 'alt'], 0, 1),
+            # functions with up to 5 parameters: FunctionN interfaces beyond the fixed four (Java/Groovy)
+            ([Config(l, z, 'P') for l in ('java', 'groovy')], [('prng', c) for c in range(1, 9)], 0, 1),
         ]
     from mc import plans
     return plans.thorough(LANGS, 'heavy')
@@ -209,8 +236,9 @@ def run(tier, seed, jobs):
     stats = {}
     samples = []
     plans = []
+    canary = make_canary()
     for configs, policies, bound, nslices in plan(tier):
-        tot = explore.explore(configs, policies, bound, SPEC, {}, jobs, seed, nslices)
+        tot = explore.explore(configs, policies, bound, SPEC, {'canary': canary}, jobs, seed, nslices)
         execs += tot.execs
         trans += tot.transitions
         states |= tot.states
@@ -246,7 +274,8 @@ def run(tier, seed, jobs):
 def replay(path):
     import json
     d = json.load(open(path))['detail']
+    canary = make_canary()
     x = explore.run_schedule(d['schedule'])
-    vs = Oracle({}).judge(x)
+    vs = Oracle({'canary': canary}).judge(x)
     print('REPLAY', vs)
     return 1 if vs else 0
